@@ -13,6 +13,8 @@ import (
 	"go/constant"
 	"go/token"
 	"go/types"
+	"math"
+	"math/big"
 	"sort"
 
 	"golang.org/x/tools/go/ssa"
@@ -413,5 +415,822 @@ func runPrecWrap(m *model.Model, s *ob.Set) {
 	}
 	if n == 0 {
 		s.Note(R, "package decimal", "-", "no uint32 arithmetic on a precision found")
+	}
+}
+
+// ---------------------------------------------------------------- QUOLEN
+
+func init() {
+	Register(&Rule{Name: "QUOLEN", Floor: 1, Run: runQuoLen,
+		Doc: "the number of quotient words uquo asks for is a pure integer function n(prec) of the receiver's precision; it must satisfy n(prec)*_DW > prec for every precision (room for prec digits plus the rounding digit), which is decided by evaluating the expression over two full periods of the word size and at the top of the precision range"})
+}
+
+// pureOfPrec evaluates v as a function of the receiver's precision p, if v is built only from
+// the load of z.prec, integer constants, conversions and + - * / % << >>. Integer types wrap.
+func pureOfPrec(m *model.Model, v ssa.Value, p uint64, depth int) (val *big.Int, ok bool) {
+	if depth == 0 {
+		return nil, false
+	}
+	wrap := func(x *big.Int, t types.Type) *big.Int {
+		b, isb := t.Underlying().(*types.Basic)
+		if !isb || b.Info()&types.IsInteger == 0 {
+			return x
+		}
+		bits := uint(64)
+		switch b.Kind() {
+		case types.Int8, types.Uint8:
+			bits = 8
+		case types.Int16, types.Uint16:
+			bits = 16
+		case types.Int32, types.Uint32:
+			bits = 32
+		case types.Int, types.Uint, types.Uintptr:
+			if m.Cfg.Name == "386" {
+				bits = 32
+			}
+		}
+		mod := new(big.Int).Lsh(big.NewInt(1), bits)
+		r := new(big.Int).Mod(x, mod)
+		if b.Info()&types.IsUnsigned == 0 && r.Bit(int(bits-1)) == 1 {
+			r.Sub(r, mod)
+		}
+		return r
+	}
+	switch x := v.(type) {
+	case *ssa.Const:
+		if x.Value == nil || x.Value.Kind() != constant.Int {
+			return nil, false
+		}
+		bi, ok := new(big.Int).SetString(x.Value.ExactString(), 10)
+		return bi, ok
+	case *ssa.UnOp:
+		if lf, ok := m.LoadOfDecField(x); ok && lf.Field == m.F.Prec && m.RefOf(lf.X).OnlyParam(0) {
+			return new(big.Int).SetUint64(p), true
+		}
+		return nil, false
+	case *ssa.Convert:
+		a, ok := pureOfPrec(m, x.X, p, depth-1)
+		if !ok {
+			return nil, false
+		}
+		return wrap(a, x.Type()), true
+	case *ssa.ChangeType:
+		return pureOfPrec(m, x.X, p, depth-1)
+	case *ssa.BinOp:
+		a, ok1 := pureOfPrec(m, x.X, p, depth-1)
+		b, ok2 := pureOfPrec(m, x.Y, p, depth-1)
+		if !ok1 || !ok2 {
+			return nil, false
+		}
+		r := new(big.Int)
+		switch x.Op {
+		case token.ADD:
+			r.Add(a, b)
+		case token.SUB:
+			r.Sub(a, b)
+		case token.MUL:
+			r.Mul(a, b)
+		case token.QUO:
+			if b.Sign() == 0 {
+				return nil, false
+			}
+			r.Quo(a, b)
+		case token.REM:
+			if b.Sign() == 0 {
+				return nil, false
+			}
+			r.Rem(a, b)
+		case token.SHL:
+			r.Lsh(a, uint(b.Uint64()))
+		case token.SHR:
+			r.Rsh(a, uint(b.Uint64()))
+		default:
+			return nil, false
+		}
+		return wrap(r, x.Type()), true
+	}
+	return nil, false
+}
+
+func runQuoLen(m *model.Model, s *ob.Set) {
+	const R = "QUOLEN"
+	fn := m.TryLookup("(*Decimal).uquo")
+	if fn == nil {
+		s.Note(R, "(*Decimal).uquo", "-", "function not found (the quotient is sized some other way; not decided)")
+		return
+	}
+	dw, _ := constant.Int64Val(m.PkgConst("_DW"))
+	maxPrec, _ := constant.Uint64Val(constant.ToInt(m.PkgConst("MaxPrec")))
+	// maximal pure expressions of prec
+	pure := map[ssa.Value]bool{}
+	for _, b := range fn.Blocks {
+		for _, in := range b.Instrs {
+			v, ok := in.(ssa.Value)
+			if !ok {
+				continue
+			}
+			switch in.(type) {
+			case *ssa.BinOp, *ssa.Convert:
+				if _, ok := pureOfPrec(m, v, 7, 8); ok {
+					pure[v] = true
+				}
+			}
+		}
+	}
+	var roots []ssa.Value
+	for v := range pure {
+		isOperand := false
+		if v.Referrers() != nil {
+			for _, u := range *v.Referrers() {
+				if uv, ok := u.(ssa.Value); ok && pure[uv] {
+					isOperand = true
+				}
+			}
+		}
+		if !isOperand {
+			roots = append(roots, v)
+		}
+	}
+	if len(roots) == 0 {
+		s.Note(R, "(*Decimal).uquo/words", m.Pos(fn.Pos()), "no pure function of the receiver's precision found in uquo (not decided)")
+		return
+	}
+	var ps []uint64
+	for p := uint64(1); p <= uint64(4*dw+5); p++ {
+		ps = append(ps, p)
+	}
+	for p := maxPrec - uint64(2*dw); p <= maxPrec && p >= maxPrec-uint64(2*dw); p++ {
+		ps = append(ps, p)
+		if p == maxPrec {
+			break
+		}
+	}
+	bad := ""
+	for _, r := range roots {
+		for _, p := range ps {
+			n, ok := pureOfPrec(m, r, p, 8)
+			if !ok {
+				continue
+			}
+			lhs := new(big.Int).Mul(n, big.NewInt(dw))
+			if lhs.Cmp(new(big.Int).SetUint64(p)) <= 0 {
+				bad = fmt.Sprintf("%s: for precision %d the word count is %s, i.e. %s digits: no room for the rounding digit (a quotient of exactly prec digits is taken for exact by round, whatever the remainder)", m.InstrPos(r.(ssa.Instruction)), p, n, lhs)
+				break
+			}
+		}
+	}
+	s.Check(bad == "", R, "(*Decimal).uquo/words", m.Pos(fn.Pos()), fmt.Sprintf("n(prec)*_DW > prec for %d precisions (two periods of the word size and the top of the range)", len(ps)), bad)
+}
+
+// ---------------------------------------------------------------- NATLEN
+
+func init() {
+	Register(&Rule{Name: "NATLEN", Floor: 1, Run: runNatLen,
+		Doc: "the number of binary words decToNat allocates is a pure function w(d) of the operand's digit count d; it must satisfy w(d)*_W >= bitlen(10^d - 1) (room for the largest d-digit integer), decided by evaluating the expression for d = 1..4000 and a few larger values against exact powers of ten"})
+}
+
+// evalNum evaluates v with one free variable (free(v) reports it): integers as *big.Int with the
+// wrap-around of their type, float64 values as float64 — the two kinds the sizing formula mixes.
+func evalNum(m *model.Model, v ssa.Value, free func(ssa.Value) bool, d int64, depth int) (interface{}, bool) {
+	if depth == 0 {
+		return nil, false
+	}
+	if free(v) {
+		return big.NewInt(d), true
+	}
+	isFloat := func(t types.Type) bool {
+		b, ok := t.Underlying().(*types.Basic)
+		return ok && b.Info()&types.IsFloat != 0
+	}
+	toF := func(x interface{}) float64 {
+		switch y := x.(type) {
+		case float64:
+			return y
+		case *big.Int:
+			f, _ := new(big.Float).SetInt(y).Float64()
+			return f
+		}
+		return 0
+	}
+	switch x := v.(type) {
+	case *ssa.Const:
+		if x.Value == nil {
+			return nil, false
+		}
+		if isFloat(x.Type()) {
+			f, _ := constant.Float64Val(constant.ToFloat(x.Value))
+			return f, true
+		}
+		if x.Value.Kind() == constant.Int {
+			bi, ok := new(big.Int).SetString(x.Value.ExactString(), 10)
+			return bi, ok
+		}
+		return nil, false
+	case *ssa.Convert:
+		a, ok := evalNum(m, x.X, free, d, depth-1)
+		if !ok {
+			return nil, false
+		}
+		if isFloat(x.Type()) {
+			return toF(a), true
+		}
+		if f, isf := a.(float64); isf {
+			bi, _ := new(big.Float).SetFloat64(math.Trunc(f)).Int(nil)
+			return bi, true
+		}
+		return a, true
+	case *ssa.ChangeType:
+		return evalNum(m, x.X, free, d, depth-1)
+	case *ssa.BinOp:
+		a, ok1 := evalNum(m, x.X, free, d, depth-1)
+		b, ok2 := evalNum(m, x.Y, free, d, depth-1)
+		if !ok1 || !ok2 {
+			return nil, false
+		}
+		if isFloat(x.Type()) {
+			fa, fb := toF(a), toF(b)
+			switch x.Op {
+			case token.ADD:
+				return fa + fb, true
+			case token.SUB:
+				return fa - fb, true
+			case token.MUL:
+				return fa * fb, true
+			case token.QUO:
+				return fa / fb, true
+			}
+			return nil, false
+		}
+		ia, oka := a.(*big.Int)
+		ib, okb := b.(*big.Int)
+		if !oka || !okb {
+			return nil, false
+		}
+		r := new(big.Int)
+		switch x.Op {
+		case token.ADD:
+			r.Add(ia, ib)
+		case token.SUB:
+			r.Sub(ia, ib)
+		case token.MUL:
+			r.Mul(ia, ib)
+		case token.QUO:
+			if ib.Sign() == 0 {
+				return nil, false
+			}
+			r.Quo(ia, ib)
+		case token.SHR:
+			r.Rsh(ia, uint(ib.Uint64()))
+		case token.SHL:
+			r.Lsh(ia, uint(ib.Uint64()))
+		default:
+			return nil, false
+		}
+		return r, true
+	case *ssa.Call:
+		// math.Ceil / math.Floor of a float
+		if cal := x.Call.StaticCallee(); cal != nil && cal.Pkg != nil && cal.Pkg.Pkg.Path() == "math" && len(x.Call.Args) == 1 {
+			a, ok := evalNum(m, x.Call.Args[0], free, d, depth-1)
+			if !ok {
+				return nil, false
+			}
+			switch cal.Name() {
+			case "Ceil":
+				return math.Ceil(toF(a)), true
+			case "Floor", "Trunc":
+				return math.Floor(toF(a)), true
+			}
+		}
+	}
+	return nil, false
+}
+
+func runNatLen(m *model.Model, s *ob.Set) {
+	const R = "NATLEN"
+	fn := m.TryLookup("decToNat")
+	if fn == nil {
+		s.Note(R, "decToNat", "-", "function not found (not decided)")
+		return
+	}
+	w, _ := constant.Int64Val(m.PkgConst("_W"))
+	isDigits := func(v ssa.Value) bool {
+		c, ok := stripConv(v).(*ssa.Call)
+		if !ok {
+			return false
+		}
+		cal := c.Call.StaticCallee()
+		return cal != nil && m.FuncName(cal) == "dec.digits"
+	}
+	free := func(v ssa.Value) bool { return isDigits(v) && v == stripConv(v) }
+	var sizes []ssa.Value
+	for _, b := range fn.Blocks {
+		for _, in := range b.Instrs {
+			cal, c := model.Callee(in)
+			if cal == nil || cal.Name() != "makeNat" || len(c.Args) != 2 {
+				continue
+			}
+			if _, isConst := c.Args[1].(*ssa.Const); isConst {
+				continue
+			}
+			sizes = append(sizes, c.Args[1])
+		}
+	}
+	if len(sizes) == 0 {
+		s.Note(R, "decToNat/words", m.Pos(fn.Pos()), "no makeNat call with a computed size found (not decided)")
+		return
+	}
+	var ds []int64
+	for d := int64(1); d <= 4000; d++ {
+		ds = append(ds, d)
+	}
+	ds = append(ds, 10000, 19*1000, 50000)
+	bad, evaluated := "", 0
+	for _, sz := range sizes {
+		if _, ok := evalNum(m, sz, free, 20, 10); !ok {
+			continue
+		}
+		evaluated++
+		ten := big.NewInt(10)
+		for _, d := range ds {
+			r, ok := evalNum(m, sz, free, d, 10)
+			n, isInt := r.(*big.Int)
+			if !ok || !isInt {
+				continue
+			}
+			need := new(big.Int).Exp(ten, big.NewInt(d), nil)
+			need.Sub(need, big.NewInt(1))
+			have := new(big.Int).Mul(n, big.NewInt(w))
+			if have.Cmp(big.NewInt(int64(need.BitLen()))) < 0 {
+				bad = fmt.Sprintf("%s: for a %d-digit operand the formula gives %s words = %s bits, the largest %d-digit integer needs %d bits: the top word is dropped silently", m.InstrPos(sz.(ssa.Instruction)), d, n, have, d, need.BitLen())
+				break
+			}
+		}
+	}
+	if evaluated == 0 {
+		s.Note(R, "decToNat/words", m.Pos(fn.Pos()), "the size passed to makeNat is not a closed formula of digits() (not decided)")
+		return
+	}
+	s.Check(bad == "", R, "decToNat/words", m.Pos(fn.Pos()), fmt.Sprintf("w(d)*_W >= bitlen(10^d-1) for %d digit counts", len(ds)), bad)
+}
+
+// ---------------------------------------------------------------- ROUNDSHAPE
+
+func init() {
+	Register(&Rule{Name: "ROUNDSHAPE", Floor: 1, Run: runRoundShape,
+		Doc: "in round, every exit reached after the mantissa was cut or incremented passes through the store that clears the digits below the precision in the lowest kept word (mant[0] reduced by a value derived from the power of ten lsd), unless the exit is the overflow to infinity: otherwise a finite result keeps non-zero digits beyond its precision"})
+}
+
+func runRoundShape(m *model.Model, s *ob.Set) {
+	const R = "ROUNDSHAPE"
+	fn := m.TryLookup("(*Decimal).round")
+	if fn == nil {
+		s.Note(R, "(*Decimal).round", "-", "function not found (not decided)")
+		return
+	}
+	finite, _ := constant.Int64Val(m.PkgConst("finite"))
+	pow10 := m.TryLookup("pow10")
+	fromPow10 := func(v ssa.Value) bool {
+		seen := map[ssa.Value]bool{}
+		var walk func(v ssa.Value, d int) bool
+		walk = func(v ssa.Value, d int) bool {
+			if d == 0 || seen[v] {
+				return false
+			}
+			seen[v] = true
+			if c, ok := v.(*ssa.Call); ok && pow10 != nil && c.Call.StaticCallee() == pow10 {
+				return true
+			}
+			if in, ok := v.(ssa.Instruction); ok {
+				var ops []*ssa.Value
+				for _, o := range in.Operands(ops) {
+					if *o != nil && walk(*o, d-1) {
+						return true
+					}
+				}
+			}
+			return false
+		}
+		return walk(v, 8)
+	}
+	type st struct{ reached, dirty, cleared, inf bool }
+	n := len(fn.Blocks)
+	in := make([]st, n)
+	in[0] = st{reached: true, cleared: true, inf: true} // must-bits start true and are cut by joins; see below
+	in[0].cleared, in[0].inf = false, false
+	isClear := func(ins ssa.Instruction) bool {
+		sto, ok := ins.(*ssa.Store)
+		if !ok {
+			return false
+		}
+		ia, ok := sto.Addr.(*ssa.IndexAddr)
+		if !ok || !m.IsWordSlice(ia.X.Type()) {
+			return false
+		}
+		if k, ok := model.ConstInt(ia.Index); !ok || k != 0 {
+			return false
+		}
+		isMant := false
+		for l := range m.RootsOf(ia.X) {
+			if l == "P0.mant" {
+				isMant = true
+			}
+		}
+		return isMant && fromPow10(sto.Val)
+	}
+	step := func(b *ssa.BasicBlock, s0 st, onRet func(*ssa.Return, st)) st {
+		cur := s0
+		for _, ins := range b.Instrs {
+			switch x := ins.(type) {
+			case *ssa.Store:
+				if fa, ok := m.DecField(x.Addr); ok && m.RefOf(fa.X).OnlyParam(0) {
+					if fa.Field == m.F.Mant {
+						cur.dirty = true
+						cur.cleared = false
+					}
+					if fa.Field == m.F.Form {
+						if k, ok := model.ConstInt(x.Val); ok && k != finite {
+							cur.inf = true
+						}
+					}
+				}
+				if isClear(ins) {
+					cur.cleared = true
+				}
+			case *ssa.Call:
+				if cal := x.Call.StaticCallee(); cal != nil && carryKernels[cal.Name()] && len(x.Call.Args) > 0 {
+					for l := range m.RootsOf(x.Call.Args[0]) {
+						if l == "P0.mant" {
+							cur.dirty = true
+							cur.cleared = false
+						}
+					}
+				}
+			case *ssa.Return:
+				if onRet != nil {
+					onRet(x, cur)
+				}
+			}
+		}
+		return cur
+	}
+	live := m.Live(fn)
+	work := []int{0}
+	for len(work) > 0 {
+		bi := work[len(work)-1]
+		work = work[:len(work)-1]
+		if !live[bi] {
+			continue
+		}
+		out := step(fn.Blocks[bi], in[bi], nil)
+		for _, ed := range model.LiveSuccs(fn.Blocks[bi]) {
+			t := ed.To.Index
+			nv := out
+			if in[t].reached {
+				nv = st{true, in[t].dirty || out.dirty, in[t].cleared && out.cleared, in[t].inf && out.inf}
+			}
+			if nv != in[t] {
+				in[t] = nv
+				work = append(work, t)
+			}
+		}
+	}
+	var bad []string
+	nret, hasClear := 0, false
+	for _, b := range fn.Blocks {
+		for _, ins := range b.Instrs {
+			if isClear(ins) {
+				hasClear = true
+			}
+		}
+	}
+	for bi, b := range fn.Blocks {
+		if !in[bi].reached || !live[bi] {
+			continue
+		}
+		step(b, in[bi], func(r *ssa.Return, cur st) {
+			nret++
+			if cur.dirty && !cur.cleared && !cur.inf {
+				bad = append(bad, fmt.Sprintf("%s: this exit is reached after the mantissa was cut or incremented without the digits below the precision having been cleared in the lowest word (and the result is not an infinity)", m.InstrPos(r)))
+			}
+		})
+	}
+	// the word written after the all-nines carry is the most significant word of the CUT mantissa:
+	// its index is (high bound of the cut) - 1
+	{
+		top := constant.BinaryOp(m.PkgConst("_DB"), token.QUO_ASSIGN, constant.MakeInt64(10))
+		var cutHigh ssa.Value
+		for _, b := range fn.Blocks {
+			for _, ins := range b.Instrs {
+				if sl, ok := ins.(*ssa.Slice); ok && sl.High != nil && m.IsWordSlice(sl.X.Type()) {
+					if sl.Low == nil {
+						for l := range m.RootsOf(sl.X) {
+							if l == "P0.mant" {
+								cutHigh = sl.High
+							}
+						}
+					}
+				}
+			}
+		}
+		nst, badIdx := 0, ""
+		for _, b := range fn.Blocks {
+			for _, ins := range b.Instrs {
+				sto, ok := ins.(*ssa.Store)
+				if !ok {
+					continue
+				}
+				k, ok := sto.Val.(*ssa.Const)
+				if !ok || k.Value == nil || k.Value.Kind() != constant.Int || !constant.Compare(k.Value, token.EQL, top) {
+					continue
+				}
+				ia, ok := sto.Addr.(*ssa.IndexAddr)
+				if !ok || !m.IsWordSlice(ia.X.Type()) {
+					continue
+				}
+				nst++
+				okIdx := false
+				if sub, ok := ia.Index.(*ssa.BinOp); ok && sub.Op == token.SUB && cutHigh != nil {
+					if one, ok := model.ConstInt(sub.Y); ok && one == 1 && structEq(stripConv(sub.X), stripConv(cutHigh), 6) {
+						okIdx = true
+					}
+				}
+				if !okIdx {
+					badIdx = m.InstrPos(sto) + ": the leading word 10^(_DW-1) is stored at an index that is not (length of the cut mantissa) - 1"
+				}
+			}
+		}
+		if nst > 0 && cutHigh != nil {
+			s.Check(badIdx == "", R, "(*Decimal).round/carry-word", m.Pos(fn.Pos()), "after the all-nines carry the top word of the cut mantissa is set", badIdx+": the rounded-up power of ten gets a zero top word (or the store is out of range)")
+		}
+	}
+	c := "(*Decimal).round/low-digits-cleared"
+	if !hasClear {
+		s.Note(R, c, m.Pos(fn.Pos()), "no store of the form mant[0] = f(mant[0], pow10(…)) found (the low digits are cleared some other way; not decided)")
+		return
+	}
+	if len(bad) == 0 {
+		s.Ok(R, c, m.Pos(fn.Pos()), fmt.Sprintf("%d exit(s): every finite exit after a cut/increment passes the clearing store", nret))
+	} else {
+		s.Bad(R, c, m.Pos(fn.Pos()), bad[0], bad[1:]...)
+	}
+}
+
+// ---------------------------------------------------------------- ROUNDONCE
+
+func init() {
+	Register(&Rule{Name: "ROUNDONCE", Floor: 5, Run: runRoundOnce,
+		Doc: "the operations documented to round their result once apply at most one operation that may round to the receiver on any path (SetRat: the numerator must not be converted into the receiver at the receiver's precision before the division)"})
+}
+
+func runRoundOnce(m *model.Model, s *ob.Set) {
+	const R = "ROUNDONCE"
+	for _, n := range []string{"Add", "Sub", "Mul", "Quo", "Set", "SetInt", "SetInt64", "SetUint64", "setBits64", "SetRat", "SetMantExp", "SetBitsExp", "Neg", "Abs", "umul", "uquo", "uadd", "usub"} {
+		fn := m.TryLookup("(*Decimal)." + n)
+		if fn == nil {
+			continue
+		}
+		c := "(*Decimal)." + n
+		if bad := roundedTwice(m, fn, 0); bad != "" {
+			s.Bad(R, c, m.Pos(fn.Pos()), bad+": the value is rounded twice (the second rounding does not see the digits the first one dropped, and the accuracy reported is that of the second only)")
+		} else {
+			s.Ok(R, c, m.Pos(fn.Pos()), "no path applies two rounding operations to the receiver")
+		}
+	}
+}
+
+// ---------------------------------------------------------------- STICKY, MUSTUSE
+
+func init() {
+	Register(&Rule{Name: "STICKY", Floor: 1, Run: runStickyShape,
+		Doc: "dec.sticky answers 0 (no non-zero digit below position i) only on paths that have run the loop over all lower words to its end, or for an empty operand: an early `return 0` before that loop hides non-zero digits from every rounding decision"})
+	Register(&Rule{Name: "MUSTUSE", Floor: 3, Run: runMustUse,
+		Doc: "every normal exit of uadd, usub, umul and uquo is preceded by a dec-layer operation that takes the mantissas of BOTH operands: a path that produces its result from one operand alone (a `y is negligible` fast path) drops digits that can still carry into the rounding position"})
+}
+
+func runStickyShape(m *model.Model, s *ob.Set) {
+	const R = "STICKY"
+	fn := m.TryLookup("dec.sticky")
+	if fn == nil {
+		s.Note(R, "dec.sticky", "-", "function not found (not decided)")
+		return
+	}
+	live := m.Live(fn)
+	// loop headers: blocks on a cycle that end in an If or are the target of a back edge
+	var loopBlocks []*ssa.BasicBlock
+	for _, b := range fn.Blocks {
+		if live[b.Index] && blockReaches(b, b) {
+			loopBlocks = append(loopBlocks, b)
+		}
+	}
+	if len(loopBlocks) == 0 {
+		s.Note(R, "dec.sticky/zero-after-scan", m.Pos(fn.Pos()), "no loop over the lower words found (written some other way; not decided)")
+		return
+	}
+	bad, nz := "", 0
+	for _, b := range fn.Blocks {
+		if !live[b.Index] {
+			continue
+		}
+		r, ok := b.Instrs[len(b.Instrs)-1].(*ssa.Return)
+		if !ok || len(r.Results) != 1 {
+			continue
+		}
+		if k, ok := model.ConstInt(r.Results[0]); !ok || k != 0 {
+			continue
+		}
+		nz++
+		// dominated by the loop (some loop block dominates this exit), i.e. reached only through it
+		viaLoop := false
+		for _, lb := range loopBlocks {
+			if m.Dominates(lb, b) {
+				viaLoop = true
+			}
+		}
+		if viaLoop {
+			continue
+		}
+		// or: the operand is empty (len(x) == 0 on the dominating edge)
+		empty := false
+		for _, gb := range fn.Blocks {
+			if len(gb.Instrs) == 0 {
+				continue
+			}
+			ifi, ok := gb.Instrs[len(gb.Instrs)-1].(*ssa.If)
+			if !ok {
+				continue
+			}
+			bo, ok := ifi.Cond.(*ssa.BinOp)
+			if !ok || bo.Op != token.EQL {
+				continue
+			}
+			if c, ok := bo.X.(*ssa.Call); ok && model.BuiltinName(&c.Call) == "len" && c.Call.Args[0] == ssa.Value(fn.Params[0]) {
+				if k, ok := model.ConstInt(bo.Y); ok && k == 0 && m.EdgeDominates(gb, 0, b) {
+					empty = true
+				}
+			}
+			// or: the caller asked about zero digits (the digit-count PARAMETER itself is 0, not
+			// the remainder of its division by the word size)
+			if len(fn.Params) > 1 && bo.X == ssa.Value(fn.Params[1]) {
+				if k, ok := model.ConstInt(bo.Y); ok && k == 0 && m.EdgeDominates(gb, 0, b) {
+					empty = true
+				}
+			}
+		}
+		if !empty {
+			bad = m.InstrPos(r) + ": `return 0` is reachable without the scan of the lower words having run to its end"
+		}
+	}
+	if nz == 0 {
+		s.Note(R, "dec.sticky/zero-after-scan", m.Pos(fn.Pos()), "no `return 0` found (not decided)")
+		return
+	}
+	s.Check(bad == "", R, "dec.sticky/zero-after-scan", m.Pos(fn.Pos()), fmt.Sprintf("%d `return 0` exit(s), each behind the scan of the lower words (or for an empty operand)", nz), bad+": non-zero digits in lower words are reported as absent (wrong ToNearestEven ties, inexact results reported Exact)")
+}
+
+func runMustUse(m *model.Model, s *ob.Set) {
+	const R = "MUSTUSE"
+	for _, n := range []string{"uadd", "usub", "umul", "uquo"} {
+		fn := m.TryLookup("(*Decimal)." + n)
+		if fn == nil || len(fn.Params) < 3 {
+			continue
+		}
+		live := m.Live(fn)
+		nb := len(fn.Blocks)
+		// must-analysis: a call taking word slices rooted in both P1.mant and P2.mant has happened
+		in := make([]int, nb) // 0 unreached, 1 both used, 2 not yet
+		in[0] = 2
+		// data taint: a word slice carries operand k's digits if it is rooted in Pk.mant, was
+		// produced by a dec-layer call from a slice that does (t := shl(y.mant, s)), or was loaded
+		// from z.mant after such a value had been stored there earlier in the same block
+		taint := [3]map[ssa.Value]bool{nil, {}, {}}
+		carries := func(v ssa.Value, k int) bool {
+			if taint[k][v] {
+				return true
+			}
+			switch x := v.(type) {
+			case *ssa.Slice:
+				if taint[k][x.X] {
+					return true
+				}
+			case *ssa.ChangeType:
+				if taint[k][x.X] {
+					return true
+				}
+			}
+			if lf, ok := m.LoadOfDecField(stripConv(v)); ok && lf.Field == m.F.Mant && m.RefOf(lf.X).OnlyParam(0) {
+				return false // z.mant: only what the block-local tracking says
+			}
+			for l := range m.RootsOf(v) {
+				if l == fmt.Sprintf("P%d.mant", k) {
+					return true
+				}
+			}
+			return false
+		}
+		step := func(b *ssa.BasicBlock, v int, onRet func(*ssa.Return, int)) int {
+			cell := [3]bool{}
+			for _, ins := range b.Instrs {
+				switch x := ins.(type) {
+				case *ssa.Store:
+					if fa, ok := m.DecField(x.Addr); ok && fa.Field == m.F.Mant && m.RefOf(fa.X).OnlyParam(0) {
+						cell[1], cell[2] = carries(x.Val, 1), carries(x.Val, 2)
+					}
+				case *ssa.UnOp:
+					if lf, ok := m.LoadOfDecField(x); ok && lf.Field == m.F.Mant && m.RefOf(lf.X).OnlyParam(0) {
+						for k := 1; k <= 2; k++ {
+							if cell[k] {
+								taint[k][x] = true
+							}
+						}
+					}
+				case *ssa.Slice:
+					for k := 1; k <= 2; k++ {
+						if carries(x.X, k) {
+							taint[k][x] = true
+						}
+					}
+				case *ssa.ChangeType:
+					for k := 1; k <= 2; k++ {
+						if carries(x.X, k) {
+							taint[k][x] = true
+						}
+					}
+				case *ssa.Phi:
+					for k := 1; k <= 2; k++ {
+						for _, e := range x.Edges {
+							if carries(e, k) {
+								taint[k][x] = true
+							}
+						}
+					}
+				case *ssa.Extract:
+					for k := 1; k <= 2; k++ {
+						if carries(x.Tuple, k) {
+							taint[k][x] = true
+						}
+					}
+				case *ssa.Call:
+					cal := x.Call.StaticCallee()
+					if cal == nil || !m.InDecimalPkg(cal) {
+						continue
+					}
+					hx, hy := false, false
+					for _, a := range x.Call.Args {
+						if !m.IsWordSlice(a.Type()) {
+							continue
+						}
+						hx = hx || carries(a, 1)
+						hy = hy || carries(a, 2)
+					}
+					if hx {
+						taint[1][x] = true
+					}
+					if hy {
+						taint[2][x] = true
+					}
+					if hx && hy {
+						v = 1
+					}
+					// squaring: x*x is computed from one mantissa (umul takes this path for x == y)
+					if (hx || hy) && m.FuncName(cal) == "dec.sqr" {
+						v = 1
+					}
+				case *ssa.Return:
+					if onRet != nil {
+						onRet(x, v)
+					}
+				}
+			}
+			return v
+		}
+		work := []int{0}
+		for len(work) > 0 {
+			bi := work[len(work)-1]
+			work = work[:len(work)-1]
+			if !live[bi] {
+				continue
+			}
+			out := step(fn.Blocks[bi], in[bi], nil)
+			for _, ed := range model.LiveSuccs(fn.Blocks[bi]) {
+				if out > in[ed.To.Index] {
+					in[ed.To.Index] = out
+					work = append(work, ed.To.Index)
+				}
+			}
+		}
+		bad, nret := "", 0
+		for bi, b := range fn.Blocks {
+			if in[bi] == 0 || !live[bi] {
+				continue
+			}
+			step(b, in[bi], func(r *ssa.Return, v int) {
+				nret++
+				if v != 1 {
+					bad = m.InstrPos(r) + ": this exit is reached on a path where no dec-layer operation has combined the mantissas of both operands"
+				}
+			})
+		}
+		c := "(*Decimal)." + n
+		s.Check(bad == "", R, c, m.Pos(fn.Pos()), fmt.Sprintf("%d exit(s), each after an operation on both mantissas", nret), bad+": the result is built from one operand alone")
 	}
 }
